@@ -461,6 +461,14 @@ def run(tier, seed, which="C03"):
         obligations.append(run_mode(prog, "crash", n_app, 1, "s04_1_crash_points",
                                     "%d appends, delete from k, 0-1 re-append; a crash after every prefix of the file mutations (write / set_len calls, also inside an operation), then reopen; index interval 2" % n_app, None))
         obligations.append(creation_crash(prog, "s04_2_crash_during_creation"))
+        from . import c04index
+        iob = c04index.run(tier, seed)
+        if iob.get("verdict") == "violation":
+            from lib import native as _n
+            pth = _n.write_replay("C04", "c04", "model", [], {"engine": "smt", "mode": "model-only", "obligation": iob["harness"], "message": iob["message"], "model": iob.get("counterexample")})
+            iob["replay_path"] = pth
+            iob["replay"] = {"path": pth, "outcome": "model-only", "message": "saved values and crash point for the raft index file (a native run would need a write interposer)"}
+        index_ob = iob
     from lib import native
     import os
     if os.environ.get("VERIF_NO_NATIVE"):
@@ -508,6 +516,8 @@ def run(tier, seed, which="C03"):
                                     "message": "the file-selection obligation is discharged but a real node does not truncate behind a snapshot pointer file: %s" % nv["message"]})
         obligations.append(fob)
     val = native_validate(obligations, seed, 6 if tier == "quick" else 24)
+    if which == "C04":
+        obligations.append(index_ob)
     for ob in obligations:
         ob.pop("_ok_paths", None)
         ob.pop("_ops", None)
